@@ -319,6 +319,13 @@ func (g *genState) settlementMsg() *Msg {
 		if r.Chance(6) {
 			req = []string{"", "r", "r1", "\x00\x01", "r1\x00", "a/b:c"}[r.Intn(6)]
 		}
+		if r.Chance(7) {
+			// long structured ids that agree on their first 64 / 128 / 255 bytes and differ after them
+			head := "settlus/marketplace-kr/creator-payout/2024-09/order-000000000000" // 64 bytes
+			k := r.Intn(4)
+			head = strings.Repeat(head, []int{1, 1, 2, 4}[k])[:[]int{64, 64, 128, 255}[k]]
+			req = head + []string{"17/item-1", "18/item-1", "17/item-2", "", "1"}[r.Intn(5)]
+		}
 		m := &Msg{Kind: "record", Sender: g.senderFor(t), Tid: t.id, Req: req, Denom: g.denomFor(t), Amount: g.amount()}
 		if g.p.Internal && r.Chance(50) {
 			m.Chain = ChainID
